@@ -532,9 +532,19 @@ def pack_into_passes(nng, arch, verbose_packing=False):
                     # Op has dynamic weights, include this in the check below
                     ifm2 = ps.ops[0].weights
 
+            # ifm and ifm2 need not be all the inputs of a CPU operator (e.g. the first input of ConcatTFLite is neither,
+            # custom operators can have more than two): no input at all may be the output of another pass
+            other_pass_inputs = any(
+                producer.type not in startup_init_ops
+                for inp in ps.ops[0].inputs
+                if inp is not None
+                for producer in inp.ops
+            )
+
             if ps.placement == PassPlacement.Cpu and (
                 ps.ops[0].ifm in sg.input_tensors
                 and (ifm2 in sg.input_tensors or ifm2 is None)
+                and not other_pass_inputs
                 or (ps.ops[0].type in (Op.VarHandle, Op.ReadVariable, Op.CallOnce))
             ):
                 # This CPU pass only depends on sg.input_tensors or resource variable
